@@ -51,6 +51,7 @@ func (store *Store) GetStoreType() types.StoreType {
 
 // Implements types.KVStore.
 func (store *Store) Get(key []byte) (value []byte) {
+	simYield(store, "get")
 	store.mtx.Lock()
 	defer store.mtx.Unlock()
 	types.AssertValidKey(key)
@@ -68,6 +69,7 @@ func (store *Store) Get(key []byte) (value []byte) {
 
 // Implements types.KVStore.
 func (store *Store) Set(key []byte, value []byte) {
+	simYield(store, "set")
 	store.mtx.Lock()
 	defer store.mtx.Unlock()
 	types.AssertValidKey(key)
@@ -84,6 +86,7 @@ func (store *Store) Has(key []byte) bool {
 
 // Implements types.KVStore.
 func (store *Store) Delete(key []byte) {
+	simYield(store, "delete")
 	store.mtx.Lock()
 	defer store.mtx.Unlock()
 	types.AssertValidKey(key)
@@ -93,6 +96,7 @@ func (store *Store) Delete(key []byte) {
 
 // Implements Cachetypes.KVStore.
 func (store *Store) Write() {
+	simYield(store, "write")
 	store.mtx.Lock()
 	defer store.mtx.Unlock()
 
@@ -153,6 +157,7 @@ func (store *Store) ReverseIterator(start, end []byte) types.Iterator {
 }
 
 func (store *Store) iterator(start, end []byte, ascending bool) types.Iterator {
+	simYield(store, "iterator")
 	store.mtx.Lock()
 	defer store.mtx.Unlock()
 
